@@ -264,6 +264,12 @@ class StageExecution(StageNavigationMixin):
                         return WorkflowStatus.RUNNING
                     if WorkflowStatus.TERMINAL in after_stage_statuses:
                         return WorkflowStatus.TERMINAL
+                    # same order as for a stage with tasks (below): a stopped / canceled
+                    # after-stage does not make its parent SUCCEEDED
+                    if WorkflowStatus.STOPPED in after_stage_statuses:
+                        return WorkflowStatus.STOPPED
+                    if WorkflowStatus.CANCELED in after_stage_statuses:
+                        return WorkflowStatus.CANCELED
                 return WorkflowStatus.SUCCEEDED
             return WorkflowStatus.NOT_STARTED
 
